@@ -1,5 +1,6 @@
 #!/usr/bin/env python3
-"""Evidence that the regenerated tie bites — ssa2lean4 (closures that capture variables by reference and call themselves;
+"""Evidence that the regenerated tie bites — ssa2lean5 (package pbcmpl: external calls as oracle answers, --gen 5, the default;
+and the cases of ssa2lean4: closures that capture variables by reference and call themselves;
 plus the cases of ssa2lean3 and ssa2lean2, whose targets this tool reproduces: functions that allocate and write slices,
 nested loops, methods that update a slice held by the receiver, loops that read memory).
 
@@ -25,8 +26,8 @@ The unmodified copy is checked first (baseline: every tie must compile against a
 The repo is taken as `git archive HEAD` of --repo (a clean export: the working tree may be in use by other checks),
 or copied as it is with --worktree.
 
-usage: selftest.py [--repo /repo] [--worktree] [--lean /verif/lean] [--bin bin/ssa2lean4] [--json out.json] [--keep] [-j N] [-v]
-       [--only substring] [--gen 4|3|2|all]
+usage: selftest.py [--repo /repo] [--worktree] [--lean /verif/lean] [--bin bin/ssa2lean5] [--json out.json] [--keep] [-j N] [-v]
+       [--only substring] [--gen 5|4|3|2|all]
 exit status 0 iff every break/survive/unsupported/nobuild expectation holds and the baseline passes.
 """
 import argparse, concurrent.futures, json, os, re, shutil, subprocess, sys, tempfile, time
@@ -403,12 +404,113 @@ CASES4 = [
 ]
 
 
+
+# the cases of ssa2lean5 (package pbcmpl: external calls as oracle answers; targets generated into Generated/Ssa5, ties in
+# LowProofs/Tie5); run with --gen 5 (default) or --gen all
+U = ("pbcmpl.Unmarshal", "pbcmpl/pbcmpl.go", "func Unmarshal(")
+RH = ("pbcmpl.ReadHeader", "pbcmpl/pbcmpl.go", "func ReadHeader(")
+MA = ("pbcmpl.Marshal", "pbcmpl/pbcmpl.go", "func Marshal(")
+ma = ("pbcmpl.marshal", "pbcmpl/pbcmpl.go", "func marshal(")
+NH = ("pbcmpl.newHeader", "pbcmpl/header.go", "func newHeader(")
+CASES5 = [
+    # ---- semantic mutations: the tie must break -------------------------------------------------------------
+    ("Unmarshal: header size compared after truncation to uint32", "break") + U +
+    ("if hi.GetHeaderSize() != int64(fixedSize) {", "if uint32(hi.GetHeaderSize()) != uint32(fixedSize) {"),
+    ("Unmarshal: the bodySize < 0 check dropped", "break") + U +
+    ("\tif bodySize < 0 {\n\t\treturn n, ver, errors.WithStack(ErrInvalidBodySize)\n\t}\n", ""),
+    ("Unmarshal: bodySize < 0 -> bodySize <= 0", "break") + U + ("if bodySize < 0 {", "if bodySize <= 0 {"),
+    ("Unmarshal: n += nbody dropped", "break") + U + ("\tn += nbody\n", ""),
+    ("Unmarshal: EOF mapping nbody > 0 -> nbody >= 0", "break") + U + ("err == io.EOF && nbody > 0", "err == io.EOF && nbody >= 0"),
+    ("Unmarshal: ver returned as \"\" on the header-size error", "break") + U +
+    ("return n, ver, errors.WithStack(ErrInvalidHeaderSize)", "return n, \"\", errors.WithStack(ErrInvalidHeaderSize)"),
+    ("Unmarshal: short body mapped to io.EOF instead of io.ErrUnexpectedEOF", "break") + U +
+    ("err = io.ErrUnexpectedEOF", "err = io.EOF"),
+    ("Unmarshal: the error of proto.Unmarshal returned without WithStack", "break") + U +
+    ("\terr = proto.Unmarshal(b.Bytes(), msg)\n\treturn n, ver, errors.WithStack(err)", "\terr = proto.Unmarshal(b.Bytes(), msg)\n\treturn n, ver, err"),
+    ("Unmarshal: io.CopyN of bodySize+1 bytes", "break") + U + ("io.CopyN(b, r, bodySize)", "io.CopyN(b, r, bodySize+1)"),
+    ("Unmarshal: count 0 returned when ReadHeader fails", "break") + U + ("\t\treturn n, \"\", err\n", "\t\treturn 0, \"\", err\n"),
+    ("Unmarshal: ErrInvalidBodySize reported as ErrInvalidHeaderSize", "break") + U +
+    ("errors.WithStack(ErrInvalidBodySize)", "errors.WithStack(ErrInvalidHeaderSize)"),
+    ("Marshal: the count of the body write returned instead of the sum (n = n2)", "break") + MA + ("\tn += n2\n", "\tn = n2\n"),
+    ("Marshal: the second Write skipped when the body is empty", "break") + MA +
+    ("\tn2, err := w.Write(d)\n", "\tif len(d) == 0 {\n\t\treturn int64(n), nil\n\t}\n\tn2, err := w.Write(d)\n"),
+    ("Marshal: count 0 returned when the header write fails", "break") + MA +
+    ("\tn, err := w.Write(h)\n\tif err != nil {\n\t\treturn int64(n), err", "\tn, err := w.Write(h)\n\tif err != nil {\n\t\treturn 0, err"),
+    ("Marshal: body written before the header", "break") + MA +
+    ("\tn, err := w.Write(h)\n", "\tn, err := w.Write(d)\n\th, d = d, h\n"),
+    ("Marshal: DefaultVer changed to 1.0.1", "break", "pbcmpl.Marshal", "pbcmpl/header.go", "DefaultVer = ", "\"1.0.0\"", "\"1.0.1\""),
+    ("Marshal: the error of the body write dropped", "break") + MA +
+    ("\tn += n2\n\tif err != nil {\n\t\treturn int64(n), err\n\t}\n", "\tn += n2\n"),
+    ("marshal: body size in the header off by one", "break") + ma + ("newHeader(ver, uint64(len(data)))", "newHeader(ver, uint64(len(data))+1)"),
+    ("marshal: header and body returned in the other order", "break") + ma + ("return header, data, nil", "return data, header, nil"),
+    ("marshal: an error of proto.Marshal(msg) ignored", "break") + ma + ("\tif err != nil {\n\t\treturn nil, nil, err\n\t}\n", "\t_ = err\n"),
+    ("newHeader: bound len(ver) > versionLen -> >=", "break") + NH + ("if len(ver) > versionLen {", "if len(ver) >= versionLen {"),
+    ("newHeader: HeaderSize and BodySize swapped", "break") + NH +
+    ("HeaderSize: uint64(fixedSize),\n\t\tBodySize:   bodysize,", "HeaderSize: bodysize,\n\t\tBodySize:   uint64(fixedSize),"),
+    ("newHeader: the version is not copied", "break") + NH + ("\tcopy(h.Version[:], ver)\n", ""),
+    ("GetBodySize reads HeaderSize", "break", "pbcmpl.headerInfo.GetBodySize", "pbcmpl/header.go", ") GetBodySize(",
+     "return int64(hi.BodySize)", "return int64(hi.HeaderSize)"),
+    ("GetHeaderSize truncates to uint32", "break", "pbcmpl.headerInfo.GetHeaderSize", "pbcmpl/header.go", ") GetHeaderSize(",
+     "return int64(hi.HeaderSize)", "return int64(uint32(hi.HeaderSize))"),
+    ("ReadHeader: a short read ignored (error only when nothing was read)", "break") + RH + ("\tif err != nil {\n", "\tif err != nil && n == 0 {\n"),
+    ("ReadHeader: the header is not decoded (proto.Unmarshal dropped)", "break") + RH + ("\tproto.Unmarshal(b, h)\n", ""),
+    ("ReadHeader: the error returned without WithStack", "break") + RH +
+    ("return int64(n), nil, errors.WithStack(err)", "return int64(n), nil, err"),
+    ("ReadHeader: count 0 on error", "break") + RH + ("return int64(n), nil, errors.WithStack(err)", "return 0, nil, errors.WithStack(err)"),
+    ("Size: the header size left out", "break", "pbcmpl.Size", "pbcmpl/pbcmpl.go", "func Size(",
+     "return HeaderSize(msg) + proto.Size(msg)", "return proto.Size(msg)"),
+    # ---- rewrites that do not change the SSA: the tie must survive ------------------------------------------
+    ("Unmarshal: comment and blank line added", "survive") + U + ("\tn += nbody\n", "\t// count the body bytes\n\n\tn += nbody\n"),
+    ("Marshal: comment added", "survive") + MA + ("\tn += n2\n", "\t// both writes\n\tn += n2\n"),
+    # ---- harmless rewrites that change the SSA: outcome reported --------------------------------------------
+    ("Unmarshal: n += nbody -> n = nbody + n", "report") + U + ("\tn += nbody\n", "\tn = nbody + n\n"),
+    ("Unmarshal: int64(fixedSize) != hi.GetHeaderSize()", "report") + U +
+    ("if hi.GetHeaderSize() != int64(fixedSize) {", "if int64(fixedSize) != hi.GetHeaderSize() {"),
+    ("Unmarshal: nbody > 0 -> nbody != 0", "report") + U + ("err == io.EOF && nbody > 0", "err == io.EOF && nbody != 0"),
+    ("Unmarshal: the version is read after the header-size check", "report") + U +
+    ("\tver := hi.GetVersion()\n\n\tif hi.GetHeaderSize() != int64(fixedSize) {\n\t\treturn n, ver, errors.WithStack(ErrInvalidHeaderSize)\n\t}\n",
+     "\tif hi.GetHeaderSize() != int64(fixedSize) {\n\t\treturn n, hi.GetVersion(), errors.WithStack(ErrInvalidHeaderSize)\n\t}\n\tver := hi.GetVersion()\n"),
+    ("Marshal: early return of the final count merged", "report") + MA +
+    ("\tif err != nil {\n\t\treturn int64(n), err\n\t}\n\n\treturn int64(n), nil\n", "\treturn int64(n), err\n"),
+    ("newHeader: fields assigned after the literal", "report") + NH +
+    ("\th := &header{\n\t\tHeaderSize: uint64(fixedSize),\n\t\tBodySize:   bodysize,\n\t}\n",
+     "\th := &header{}\n\th.BodySize = bodysize\n\th.HeaderSize = uint64(fixedSize)\n"),
+    ("ReadHeader: headerInfo built in two steps", "report") + RH +
+    ("return int64(n), &headerInfo{h}, nil", "hi := &headerInfo{}\n\thi.header = h\n\treturn int64(n), hi, nil"),
+    # ---- outside the supported subset: the translator must refuse -------------------------------------------
+    ("Unmarshal: err compared with a computed error value", "unsupported") + U +
+    ("err == io.EOF && nbody > 0", "err == errors.WithStack(io.EOF) && nbody > 0"),
+    ("ReadHeader: the header written after it was stored in the headerInfo", "unsupported") + RH +
+    ("return int64(n), &headerInfo{h}, nil", "hi := &headerInfo{h}\n\th.BodySize = 0\n\treturn int64(n), hi, nil"),
+    ("ReadHeader: a pointer comparison", "unsupported") + RH +
+    ("\th := &header{}\n", "\th := &header{}\n\tif h == nil {\n\t\tpanic(\"nil\")\n\t}\n"),
+    ("ReadHeader: an external that is not in the list (io.ReadAtLeast)", "unsupported") + RH +
+    ("io.ReadFull(r, b)", "io.ReadAtLeast(r, b, len(b))"),
+    ("Unmarshal: two io.CopyN into the same buffer", "unsupported") + U +
+    ("\tn += nbody\n", "\tn += nbody\n\tio.CopyN(b, r, 0)\n"),
+    ("Unmarshal: another method of the bytes.Buffer (Len)", "unsupported") + U +
+    ("\tn += nbody\n", "\tn += nbody\n\tn += int64(b.Len()) - nbody\n"),
+    ("Marshal: the asserted value used where ok is false", "unsupported") + MA + ("\tif ok {\n", "\tif !ok {\n"),
+    ("GetVersion: the array field sliced with a bound", "unsupported", "pbcmpl.headerInfo.GetVersion", "pbcmpl/header.go", ") GetVersion(",
+     "verStr(hi.Version[:])", "verStr(hi.Version[:15])"),
+    ("GetBodySize: a store through the receiver", "unsupported", "pbcmpl.headerInfo.GetBodySize", "pbcmpl/header.go", ") GetBodySize(",
+     "\treturn int64(hi.BodySize)", "\thi.BodySize++\n\treturn int64(hi.BodySize)"),
+    ("Unmarshal: a package-level error variable assigned outside init", "unsupported", "pbcmpl.Unmarshal", "pbcmpl/errors.go", "import \"errors\"",
+     "import \"errors\"", "import \"errors\"\n\nfunc resetErr() { ErrInvalidBodySize = errors.New(\"x\") }"),
+    ("Unmarshal: two package-level error variables holding the same value", "unsupported", "pbcmpl.Unmarshal", "pbcmpl/errors.go", "var (",
+     "ErrInvalidBodySize = errors.New(\"bodysize is incorrect\")", "ErrInvalidBodySize = ErrInvalidHeaderSize"),
+    ("Unmarshal: a second implementation of the Header interface", "unsupported", "pbcmpl.Unmarshal", "pbcmpl/header.go", "type headerInfo struct",
+     "type headerInfo struct", "type otherInfo struct{ *header }\n\nfunc (o *otherInfo) GetVersion() string  { return \"\" }\nfunc (o *otherInfo) GetHeaderSize() int64 { return 0 }\nfunc (o *otherInfo) GetBodySize() int64   { return 0 }\nfunc asHeader(h *header) Header           { return &otherInfo{h} }\n\ntype headerInfo struct"),
+    ("Unmarshal: the tree does not build", "nobuild") + U + ("\tn += nbody\n", "\tn += nbodyy\n"),
+]
+
 GEN2_TARGETS = set(c[2] for c in CASES2)
 GEN4_TARGETS = set(c[2] for c in CASES4)
+GEN5_TARGETS = set(c[2] for c in CASES5)
 
 
 def gen_of(target):
-    return 2 if target in GEN2_TARGETS else 4 if target in GEN4_TARGETS else 3
+    return 2 if target in GEN2_TARGETS else 4 if target in GEN4_TARGETS else 5 if target in GEN5_TARGETS else 3
 
 
 def lean_name(target):
@@ -615,8 +717,8 @@ def main():
     ap = argparse.ArgumentParser()
     ap.add_argument("--repo", default="/repo")
     ap.add_argument("--lean", default="/verif/lean")
-    ap.add_argument("--bin", default=os.path.join(HERE, "bin", "ssa2lean4"))
-    ap.add_argument("--gen", default="4", help="4: the cases of ssa2lean4 (closures; default); 3: those of ssa2lean3; 2: those of ssa2lean2; all")
+    ap.add_argument("--bin", default=os.path.join(HERE, "bin", "ssa2lean5"))
+    ap.add_argument("--gen", default="5", help="5: the cases of ssa2lean5 (pbcmpl, external calls; default); 4: the cases of ssa2lean4 (closures); 3: those of ssa2lean3; 2: those of ssa2lean2; all")
     ap.add_argument("--worktree", action="store_true", help="copy the working tree of --repo instead of exporting HEAD")
     ap.add_argument("--only", default="", help="run only the cases (and baselines) whose name or target contains this text")
     ap.add_argument("--json", default="")
@@ -628,10 +730,10 @@ def main():
 
     r = subprocess.run(["go", "build", "-o", args.bin, "."], cwd=HERE, env=ENV, capture_output=True, text=True)
     if r.returncode != 0:
-        raise SystemExit("selftest: cannot build ssa2lean4:\n" + r.stderr)
+        raise SystemExit("selftest: cannot build ssa2lean5:\n" + r.stderr)
 
     # the scratch ties import already-built modules: make sure they are built (through the project lock)
-    pool = {"4": CASES4, "3": CASES3, "2": CASES2, "all": CASES4 + CASES3 + CASES2}[args.gen]
+    pool = {"5": CASES5, "4": CASES4, "3": CASES3, "2": CASES2, "all": CASES5 + CASES4 + CASES3 + CASES2}[args.gen]
     all_cases = [c for c in pool if args.only in c[0] or args.only in c[2]]
     mods = set()
     for c in all_cases:
@@ -654,7 +756,7 @@ def main():
             targets.append(c[2])
     cases = [("baseline " + t, "baseline", t, None, None, None, None) for t in targets] + all_cases
 
-    scratch = tempfile.mkdtemp(prefix="ssa2lean4-selftest-", dir="/tmp")
+    scratch = tempfile.mkdtemp(prefix="t5-selftest-", dir="/tmp")
     results = []
     try:
         # a clean copy of the repo: `git archive HEAD` (the working tree may be in use), or the tree as it is
